@@ -15,6 +15,9 @@
 //! State carried from one record to the next is caught by two metamorphic clauses: the plain anchor record must be
 //! imported and printed identically whatever the other record is (`anchor-record-depends-on-other-record-*`, both
 //! file orders), and date-less CSV rows must not change the number of transactions (`record-count`).
+//! The dates of every record (all shapes; Camt053 entries booked with one TxDtls, as a whole, as a batch, with and
+//! without ValDt) are compared with the statement's (`statement-date-differs`), and for csv-multi the conversion the
+//! configuration asks for (rule over account-wide, `disabled`) with the one applied (`conversion-*`).
 //!
 //! Violation signatures are `<clause>/<cause>`: the clause is the first symptom (reparse-fails,
 //! extra-transaction, extra-posting, reread-differs-<tree field>, ...), the cause is the smallest
@@ -38,13 +41,14 @@ pub const DEF: CheckDef = CheckDef {
     id: "C15",
     run,
     technique: "bounded-exhaustive enumeration of statement records (field alphabets, all records with <= d non-plain fields) for the CSV, Camt053 and Viseca importers; differential oracle: importer-built syntax tree versus okane's own parser applied to the text printed by the real ImportCmd::run; violating cases are reduced to their smallest violating sub-set of non-plain fields, which names the signature",
-    rule: "case = (shape, precision, record). 15 shapes: csv-basic (index columns, liability, code+payee split by a rewrite rule, note, commodity column, balance), csv-credit-debit (label columns, tab delimiter, a 50-column account name so that the amount column overflows), csv-multi (rate, secondary amount/commodity, charge, conversion mode), csv-template (payee = '{category} - {note}', new_to_old), camt-<source> for the 7 text elements a rewrite rule can copy into the payee (creditor, debtor, ultimate creditor/debtor name, remittance info, additional transaction/entry info) each with AcctSvcrRef as code and booking date != value date, camt-entry-only (no TxDtls), camt-numeric (amounts, currency, TxAmt+CcyXchg, charges, opening/closing balance), viseca-basic, viseca-fx. Text alphabet (21): plain, semicolon, lparen, rparen, star, bang, digit-date, double-space, tab, leading-blank, trailing-blank, newline, newline-indent (an indented posting line), newline-date (a dated header line), cr, word-tag, key-value, cjk, empty, equals-at, long. Numeric alphabet: plain, 1,234.50, -0.5, CHF 12.00, $1.46, .02, 0, 12.345, and absent/present for optional columns (Viseca: plain, 1'234.50, .02, 0, 5, 1.2.3, 12.345). Commodity alphabet: plain, empty, $, 'US D', BRK.B, 'A;B'. CSV amount/credit/debit/balance cells of csv-basic and csv-credit-debit additionally take the sign placements -$12.50, $-12.50, $-1,234.50, USD -20, -USD 20, -20 USD and are compared with an independent exact reading of the cell (sign rule of the shape applied). The configured operator of the charge-printing shapes (csv-multi, csv-template, camt-entry-only, camt-numeric, viseca-fx) takes plain, trailing newline, blank-padded, inner double blank, ';', inner newline. Every statement carries the tested record followed by one plain anchor record. Precision of CHF/USD/EUR/VYM in {none,2,4}. ALL records with <= 2 (quick) / <= 3 (thorough) non-plain fields. The four CSV shapes also carry a row choice: a date-less row (all cells empty but the payee) before / between / after the two records, which must not change the number of transactions. Anchor independence: the transaction (tree and printed text) of the plain anchor record must be identical to the one of the statement whose tested record is all plain (same configuration and statement-level fields); every record with one non-plain field less is also run with the file order of the two records swapped. Text fields also take Unicode white space at either end (U+3000 before / after, U+00A0 after, a note line made of U+00A0); the operator also U+3000/U+00A0 padding. Multi-statement family: Camt053 documents with 0..=3 Stmt elements and 0..=4 (thorough 5) plain entries distributed over the statements in every way x with/without opening balances x precision {none,2}: one transaction per entry (plus one per non-empty statement with an opening balance) in document order (record-count, record-sequence) and the usual round trip; documents okane rejects (no Stmt, a Stmt without Ntry) are DON'T-CARE. Amount-bearing cells also take the zero spellings 0.00, -0.00, -0 (Viseca 0.00). Secondary-amount reference: in csv-multi (extract, no charge), csv-template (no fees), camt-numeric (unsigned Amt, TxAmt, no charges) and viseca-fx the posting in the secondary commodity must be +|secondary| when the statement account is debited (minus sign in the amount cell, also on a zero / DBIT / purchase line) and -|secondary| otherwise. Date family: record dates on every day 25 Dec..7 Jan over 8 year boundaries (2018/19..2025/26, every week-day position of 1 January), 28/29 Feb, 1 Mar of 2020/2023/2024, CSV, and Camt053 / Viseca with an effective date 0/1/3/7 days later: built dates = statement dates (statement-date-differs) and the usual round trip. Camt053 reference family: booking / value dates as DtTm with offsets -12:00..+14:00 (and +05:30, +05:45, -03:30) at 00:00, 00:30, 12:00, 23:30 (the record's date is the calendar date at the statement's own offset), and batch entries (DBIT / CRDT) with 1..=3 TxDtls carrying every combination of own indicators (each detail's own indicator decides its sign). Plus the layout-boundary family: for one CSV, one Camt053 and one Viseca shape the configured account and the rewrite (counter) account (cleared and pending) take every display width 1..=64 (ASCII; CSV also names with wide CJK characters; thorough: full 64x64 product for CSV) x 4-5 amount spellings of different printed widths and both signs x precision {none,2,4} x with/without running balance. states = statements imported (incl. minimisation re-runs), transitions = transactions compared field by field",
+    rule: "case = (shape, precision, record). 15 shapes: csv-basic (index columns, liability, code+payee split by a rewrite rule, note, commodity column, balance), csv-credit-debit (label columns, tab delimiter, a 50-column account name so that the amount column overflows), csv-multi (rate, secondary amount/commodity, charge, account-wide conversion: 4 modes, disabled, disabled with other modes, key left out; conversion of the matching rewrite rule: none, 4 modes, disabled, disabled with other modes, commodity override), csv-template (payee = '{category} - {note}', new_to_old), camt-<source> for the 7 text elements a rewrite rule can copy into the payee (creditor, debtor, ultimate creditor/debtor name, remittance info, additional transaction/entry info) each with AcctSvcrRef as code and booking date != value date, camt-entry-only (no TxDtls), camt-numeric (amounts, currency, TxAmt+CcyXchg, charges, opening/closing balance), viseca-basic, viseca-fx. Text alphabet (21): plain, semicolon, lparen, rparen, star, bang, digit-date, double-space, tab, leading-blank, trailing-blank, newline, newline-indent (an indented posting line), newline-date (a dated header line), cr, word-tag, key-value, cjk, empty, equals-at, long. Numeric alphabet: plain, 1,234.50, -0.5, CHF 12.00, $1.46, .02, 0, 12.345, and absent/present for optional columns (Viseca: plain, 1'234.50, .02, 0, 5, 1.2.3, 12.345). Commodity alphabet: plain, empty, $, 'US D', BRK.B, 'A;B'. CSV amount/credit/debit/balance cells of csv-basic and csv-credit-debit additionally take the sign placements -$12.50, $-12.50, $-1,234.50, USD -20, -USD 20, -20 USD and are compared with an independent exact reading of the cell (sign rule of the shape applied). The configured operator of the charge-printing shapes (csv-multi, csv-template, camt-entry-only, camt-numeric, viseca-fx) takes plain, trailing newline, blank-padded, inner double blank, ';', inner newline. Every statement carries the tested record followed by one plain anchor record. Precision of CHF/USD/EUR/VYM in {none,2,4}. ALL records with <= 2 (quick) / <= 3 (thorough) non-plain fields. The four CSV shapes also carry a row choice: a date-less row (all cells empty but the payee) before / between / after the two records, which must not change the number of transactions. Anchor independence: the transaction (tree and printed text) of the plain anchor record must be identical to the one of the statement whose tested record is all plain (same configuration and statement-level fields); every record with one non-plain field less is also run with the file order of the two records swapped. Text fields also take Unicode white space at either end (U+3000 before / after, U+00A0 after, a note line made of U+00A0); the operator also U+3000/U+00A0 padding. Multi-statement family: Camt053 documents with 0..=3 Stmt elements and 0..=4 (thorough 5) plain entries distributed over the statements in every way x with/without opening balances x precision {none,2}: one transaction per entry (plus one per non-empty statement with an opening balance) in document order (record-count, record-sequence) and the usual round trip; documents okane rejects (no Stmt, a Stmt without Ntry) are DON'T-CARE. Amount-bearing cells also take the zero spellings 0.00, -0.00, -0 (Viseca 0.00). Secondary-amount reference: in csv-multi (extract, no charge), csv-template (no fees), camt-numeric (unsigned Amt, TxAmt, no charges) and viseca-fx the posting in the secondary commodity must be +|secondary| when the statement account is debited (minus sign in the amount cell, also on a zero / DBIT / purchase line) and -|secondary| otherwise. Date family: record dates on every day 25 Dec..7 Jan over 8 year boundaries (2018/19..2025/26, every week-day position of 1 January), 28/29 Feb, 1 Mar of 2020/2023/2024, CSV, and Camt053 / Viseca with an effective date 0/1/3/7 days later: built dates = statement dates (statement-date-differs) and the usual round trip; the Camt053 dates for every way an entry is booked (one TxDtls, no NtryDtls = booked as a whole, a batch of two TxDtls) and also without ValDt (the booking date is then the record's only date). Every record case of every shape also carries the dates of both its records as a reference. Camt053 reference family: booking / value dates as DtTm with offsets -12:00..+14:00 (and +05:30, +05:45, -03:30) at 00:00, 00:30, 12:00, 23:30 (the record's date is the calendar date at the statement's own offset; on an entry with one TxDtls and on an entry booked as a whole), and batch entries (DBIT / CRDT) with 1..=3 TxDtls carrying every combination of own indicators (each detail's own indicator decides its sign). Conversion reference (csv-multi): the conversion of a row is the one of the matching rule when it has one, else the account-wide one; when that one is disabled every posting of the record is in the commodity of the amount cell without a rate and mirrors the amount cell (conversion-disabled-but-converted), when it is enabled and the row gives rate, secondary amount and commodity a posting in the secondary commodity exists (conversion-configured-but-not-converted); an enabled rule conversion under a disabled account-wide one and rows lacking a cell are not judged. Conversion-configuration product: every combination of account-wide conversion (7) x rule conversion (8) x rate / secondary amount / secondary commodity cell filled or empty x charge x amount sign x precision {none,2} (3584 cases). Plus the layout-boundary family: for one CSV, one Camt053 and one Viseca shape the configured account and the rewrite (counter) account (cleared and pending) take every display width 1..=64 (ASCII; CSV also names with wide CJK characters; thorough: full 64x64 product for CSV) x 4-5 amount spellings of different printed widths and both signs x precision {none,2,4} x with/without running balance. states = statements imported (incl. minimisation re-runs), transitions = transactions compared field by field",
     assumptions: &[
         "the tree is built in the harness by the same public calls as ImportCmd::run (load_from_yaml, ConfigSet::select, import::import, Txn::to_double_entry) on the same scratch files, reading the file as UTF-8 bytes without encoding_rs_io (identical for the BOM-less UTF-8 statements generated here)",
         "text that the importer trims / splits / rejects before building the tree is not judged (tree vs re-read text only); records the importer rejects are DON'T-CARE",
         "account names and rewrite rules come from the configuration and are plain (account names of every width in the layout family); the configured operator is part of the alphabet for the shapes that print charges",
         "value reference: csv-basic (liability: amount column negated, counter posting opposite, balance as written) and csv-credit-debit (exactly one of credit/debit filled in) only; a cell is negative iff exactly one minus stands before its first digit; cells outside that reading, other shapes and statements okane rejects are not value-judged",
         "scale clause: re-read scale must equal max(tree scale, configured precision of that commodity)",
+        "which conversion a CSV row gets is read from okane's configuration documentation (rule over account-wide default; `disabled` = no conversion): the property statement itself only says 'under all importer configurations'",
     ],
     shards: 64,
     hang_s: 30,
@@ -289,10 +293,33 @@ fn shapes() -> Vec<Shape> {
             choice(
                 "conversion",
                 "config",
-                &[("extract/price_of_secondary", "extract price_of_secondary"), ("compute/price_of_secondary", "compute price_of_secondary"), ("extract/price_of_primary", "extract price_of_primary"), ("compute/price_of_primary", "compute price_of_primary")],
+                &[
+                    ("extract/price_of_secondary", "extract price_of_secondary"),
+                    ("compute/price_of_secondary", "compute price_of_secondary"),
+                    ("extract/price_of_primary", "extract price_of_primary"),
+                    ("compute/price_of_primary", "compute price_of_primary"),
+                    ("disabled", "extract price_of_secondary disabled"),
+                    ("disabled-compute/price_of_primary", "compute price_of_primary disabled"),
+                    ("unspecified", ""),
+                ],
             ),
             operator("Okane Bank (commission)"),
             choice("dateless-row", "row", &[("none", ""), ("dateless-before", "before"), ("dateless-between", "between"), ("dateless-after", "after")]),
+            // the `conversion` of the rewrite rule that matches the tested record
+            choice(
+                "rule-conversion",
+                "rule-config",
+                &[
+                    ("none", ""),
+                    ("extract/price_of_secondary", "extract price_of_secondary"),
+                    ("compute/price_of_secondary", "compute price_of_secondary"),
+                    ("extract/price_of_primary", "extract price_of_primary"),
+                    ("compute/price_of_primary", "compute price_of_primary"),
+                    ("disabled", "extract price_of_secondary disabled"),
+                    ("disabled-compute/price_of_primary", "compute price_of_primary disabled"),
+                    ("commodity-override", "extract price_of_secondary commodity=EUR"),
+                ],
+            ),
         ],
     });
     v.push(Shape {
@@ -384,7 +411,13 @@ struct Rendered {
     /// payees of the transactions in import order, when the family knows them (multi-statement documents)
     payees: Option<Vec<String>>,
     /// (transaction index, date, effective date) the statement dictates (date family)
-    dates: Option<(usize, NaiveDate, Option<NaiveDate>)>,
+    dates: Vec<(usize, NaiveDate, Option<NaiveDate>)>,
+    /// (transaction index, commodity): the configuration switches the conversion of this record off, so every
+    /// posting of its transaction is in this commodity and none carries a rate
+    single_commodity: Option<(usize, String)>,
+    /// (transaction index, commodity): the configuration converts this record, so its transaction has a posting
+    /// in this (secondary) commodity
+    converted: Option<(usize, String)>,
 }
 
 /// One number of the built tree that is dictated by a statement cell.
@@ -433,6 +466,57 @@ fn cell_value(cell: &str) -> Option<Q> {
 fn secondary_expect(txn: usize, commodity: &str, secondary_cell: &str, debit: bool, why: &str) -> Option<Expect> {
     let q = cell_value(&secondary_cell.replace('\'', ""))?.abs();
     Some(Expect { txn, source: false, balance: false, commodity: Some(commodity.to_string()), value: if debit { q } else { q.neg() }, why: format!("secondary amount cell {:?}, {}", secondary_cell, why) })
+}
+
+/// One `conversion:` block of a CSV configuration (account-wide or of a rewrite rule), written in the alphabets as
+/// `<amount mode> <rate mode> [disabled] [commodity=<C>]`; the empty string leaves the block out.
+#[derive(Clone, Copy, Debug)]
+struct ConvSpec<'a> {
+    extract: bool,
+    price_of_secondary: bool,
+    disabled: bool,
+    commodity: Option<&'a str>,
+}
+
+impl Default for ConvSpec<'_> {
+    /// what okane documents as the default: extract / price_of_secondary, enabled
+    fn default() -> Self {
+        ConvSpec { extract: true, price_of_secondary: true, disabled: false, commodity: None }
+    }
+}
+
+impl<'a> ConvSpec<'a> {
+    fn parse(s: &'a str) -> Option<ConvSpec<'a>> {
+        if s.is_empty() {
+            return None;
+        }
+        let mut c = ConvSpec::default();
+        for tok in s.split(' ') {
+            match tok {
+                "extract" => c.extract = true,
+                "compute" => c.extract = false,
+                "price_of_secondary" => c.price_of_secondary = true,
+                "price_of_primary" => c.price_of_secondary = false,
+                "disabled" => c.disabled = true,
+                t => c.commodity = Some(t.strip_prefix("commodity=").expect("harness bug: conversion spec")),
+            }
+        }
+        Some(c)
+    }
+    fn yaml(&self, indent: &str) -> String {
+        let mut s = format!("{}conversion:\n{}  amount: {}\n{}  rate: {}\n", indent, indent, if self.extract { "extract" } else { "compute" }, indent, if self.price_of_secondary { "price_of_secondary" } else { "price_of_primary" });
+        if self.disabled {
+            s.push_str(&format!("{}  disabled: true\n", indent));
+        }
+        if let Some(c) = self.commodity {
+            s.push_str(&format!("{}  commodity: {}\n", indent, c));
+        }
+        s
+    }
+}
+
+fn ymd(y: i32, m: u32, d: u32) -> NaiveDate {
+    NaiveDate::from_ymd_opt(y, m, d).expect("harness bug: invalid date")
 }
 
 fn yaml_dq(s: &str) -> String {
@@ -517,7 +601,7 @@ fn render(shape: &Shape, prec: Option<u8>, v: &Vals, swap: bool) -> Rendered {
             if let Some(b) = v[5].and_then(cell_value) {
                 expect.push(Expect { txn: t_idx, source: true, balance: true, commodity: None, value: b, why: format!("balance cell {:?}", g(5)) });
             }
-            Rendered { config, statement: st, ext: "csv", records: 2, expect, anchor_txn: Some(a_idx), payees: None, dates: None }
+            Rendered { config, statement: st, ext: "csv", records: 2, expect, anchor_txn: Some(a_idx), payees: None, dates: vec![(t_idx, ymd(2024, 1, 5), None), (a_idx, ymd(2024, 1, 6), None)], single_commodity: None, converted: None }
         }
         Kind::CsvCreditDebit => {
             let config = format!(
@@ -546,16 +630,19 @@ fn render(shape: &Shape, prec: Option<u8>, v: &Vals, swap: bool) -> Rendered {
             if let Some(b) = v[2].and_then(cell_value) {
                 expect.push(Expect { txn: t_idx, source: true, balance: true, commodity: None, value: b, why: format!("balance cell {:?}", g(2)) });
             }
-            Rendered { config, statement: st, ext: "csv", records: 2, expect, anchor_txn: Some(a_idx), payees: None, dates: None }
+            Rendered { config, statement: st, ext: "csv", records: 2, expect, anchor_txn: Some(a_idx), payees: None, dates: vec![(t_idx, ymd(2024, 1, 5), None), (a_idx, ymd(2024, 1, 6), None)], single_commodity: None, converted: None }
         }
         Kind::CsvMulti => {
-            let (amode, rmode) = g(6).split_once(' ').expect("conversion mode");
+            // account-wide conversion (`commodity.conversion`) and the conversion of the rewrite rule that matches the
+            // tested record; an empty spec leaves the key out
+            let acct = ConvSpec::parse(g(6));
+            let rule = ConvSpec::parse(g(9));
             let config = format!(
-                "path: \".csv\"\nencoding: UTF-8\naccount: \"Assets:Okane Bank\"\naccount_type: asset\noperator: {}\ncommodity:\n  primary: CHF\n  conversion:\n    amount: {}\n    rate: {}\nformat:\n  date: \"%Y-%m-%d\"\n  fields:\n    date: 1\n    payee: 2\n    amount: 3\n    commodity: 4\n    rate: 5\n    secondary_amount: 6\n    secondary_commodity: 7\n    charge: 8\n{}rewrite:\n  - matcher:\n      payee: Wire\n    account: Assets:Wire\n",
+                "path: \".csv\"\nencoding: UTF-8\naccount: \"Assets:Okane Bank\"\naccount_type: asset\noperator: {}\ncommodity:\n  primary: CHF\n{}format:\n  date: \"%Y-%m-%d\"\n  fields:\n    date: 1\n    payee: 2\n    amount: 3\n    commodity: 4\n    rate: 5\n    secondary_amount: 6\n    secondary_commodity: 7\n    charge: 8\n{}rewrite:\n  - matcher:\n      payee: Wire\n    account: Assets:Wire\n{}",
                 yaml_dq(g(7)),
-                amode,
-                rmode,
-                yaml_precisions(prec)
+                acct.as_ref().map(|c| c.yaml("  ")).unwrap_or_default(),
+                yaml_precisions(prec),
+                rule.as_ref().map(|c| c.yaml("    ")).unwrap_or_default()
             );
             let st = assemble(
                 &csv_row(&["date", "payee", "amount", "commodity", "rate", "secondary_amount", "secondary_commodity", "charge"], ','),
@@ -565,17 +652,51 @@ fn render(shape: &Shape, prec: Option<u8>, v: &Vals, swap: bool) -> Rendered {
                 g(8),
                 &csv_row(&["", "Sub-total", "", "", "", "", "", ""], ','),
             );
-            // extracted secondary amount, no charge: the JPY posting is +|secondary| for a debit (minus sign in the
-            // amount cell, also on a zero) and -|secondary| otherwise
+            // Which conversion the configuration asks for (config.rs: the account-wide one is "applied to all transaction, if
+            // not specified in rewrite rules"; `disabled`: "Disable all conversions"):
+            //  * the rule's conversion when the matching rule has one, else the account-wide one;
+            //  * when that one is disabled the record is a plain single-commodity record;
+            //  * an enabled rule conversion under a disabled account-wide one is not judged (either reading is defensible),
+            //    nor is an account-wide conversion for a row that lacks the rate or the secondary amount.
+            let acct = acct.unwrap_or_default();
+            let row_complete = v[3].is_some() && v[4].is_some();
+            let (switched_off, applied): (bool, Option<ConvSpec>) = match rule {
+                Some(r) if r.disabled => (true, None),
+                Some(r) => (false, if acct.disabled { None } else { Some(r) }),
+                None if acct.disabled => (true, None),
+                None => (false, if row_complete { Some(acct) } else { None }),
+            };
             let mut expect = vec![];
+            let mut single_commodity = None;
+            let mut converted = None;
+            let amount_cell = cell_value(g(2));
             let rate_ok = v[3].and_then(cell_value).map(|r| !r.is_zero()).unwrap_or(false);
-            if g(0) == "USD" && g(1) == "JPY" && amode == "extract" && v[5].is_none() && rate_ok && cell_value(g(2)).is_some() {
-                if let Some(sec) = v[4] {
-                    let debit = g(2).contains('-');
-                    expect.extend(secondary_expect(t_idx, "JPY", sec, debit, if debit { "amount cell with a minus sign: debit" } else { "amount cell without a minus sign: credit" }));
+            if switched_off && g(0) == "USD" {
+                // no conversion: everything in the commodity of the amount cell, no rate; asset account: the amount as written,
+                // the counter posting opposite (net of a charge: not value-judged)
+                single_commodity = Some((t_idx, "USD".to_string()));
+                if let Some(a) = amount_cell {
+                    expect.push(Expect { txn: t_idx, source: true, balance: false, commodity: None, value: a, why: format!("amount cell {:?} of an asset account, conversion switched off", g(2)) });
+                    if v[5].is_none() {
+                        expect.push(Expect { txn: t_idx, source: false, balance: false, commodity: None, value: a.neg(), why: format!("counter posting of the amount cell {:?}, conversion switched off", g(2)) });
+                    }
                 }
             }
-            Rendered { config, statement: st, ext: "csv", records: 2, expect, anchor_txn: Some(a_idx), payees: None, dates: None }
+            if let Some(c) = applied {
+                let secondary = c.commodity.unwrap_or("JPY");
+                if g(0) == "USD" && g(1) == "JPY" && rate_ok && amount_cell.is_some() && (!c.extract || v[4].and_then(cell_value).is_some()) {
+                    converted = Some((t_idx, secondary.to_string()));
+                    // extracted secondary amount, no charge: the posting in the secondary commodity is +|secondary| for a debit
+                    // (minus sign in the amount cell, also on a zero) and -|secondary| otherwise
+                    if c.extract && v[5].is_none() {
+                        if let Some(sec) = v[4] {
+                            let debit = g(2).contains('-');
+                            expect.extend(secondary_expect(t_idx, secondary, sec, debit, if debit { "amount cell with a minus sign: debit" } else { "amount cell without a minus sign: credit" }));
+                        }
+                    }
+                }
+            }
+            Rendered { config, statement: st, ext: "csv", records: 2, expect, anchor_txn: Some(a_idx), payees: None, dates: vec![(t_idx, ymd(2024, 1, 5), None), (a_idx, ymd(2024, 1, 6), None)], single_commodity, converted }
         }
         Kind::CsvTemplate => {
             let config = format!(
@@ -601,7 +722,7 @@ fn render(shape: &Shape, prec: Option<u8>, v: &Vals, swap: bool) -> Rendered {
                     expect.extend(secondary_expect(t_idx, "VYM", sec, debit, if debit { "amount cell with a minus sign: debit" } else { "amount cell without a minus sign: credit" }));
                 }
             }
-            Rendered { config, statement: st, ext: "csv", records: 2, expect, anchor_txn: Some(a_idx), payees: None, dates: None }
+            Rendered { config, statement: st, ext: "csv", records: 2, expect, anchor_txn: Some(a_idx), payees: None, dates: vec![(t_idx, ymd(2024, 1, 5), None), (a_idx, ymd(2024, 1, 6), None)], single_commodity: None, converted: None }
         }
         Kind::CamtText(k) => {
             let mut e = CamtEntry::plain();
@@ -616,7 +737,7 @@ fn render(shape: &Shape, prec: Option<u8>, v: &Vals, swap: bool) -> Rendered {
                 6 => e.addtl_ntry = g(1),
                 _ => unreachable!(),
             }
-            Rendered { config: camt_config(prec, CAMT_SOURCES[k].1, "Okane Bank (fee)"), statement: camt_doc(&ordered(e, CamtEntry::anchor(k), swap), Some("100"), Some("74.5")), ext: "xml", records: 3, expect: vec![], anchor_txn: Some(1 + a_idx), payees: None, dates: None }
+            Rendered { config: camt_config(prec, CAMT_SOURCES[k].1, "Okane Bank (fee)"), statement: camt_doc(&ordered(e, CamtEntry::anchor(k), swap), Some("100"), Some("74.5")), ext: "xml", records: 3, expect: vec![], anchor_txn: Some(1 + a_idx), payees: None, dates: vec![(1 + t_idx, ymd(2024, 1, 5), Some(ymd(2024, 1, 4))), (1 + a_idx, ymd(2024, 1, 6), None)], single_commodity: None, converted: None }
         }
         Kind::CamtEntryOnly => {
             let mut e = CamtEntry::plain();
@@ -624,7 +745,7 @@ fn render(shape: &Shape, prec: Option<u8>, v: &Vals, swap: bool) -> Rendered {
             e.addtl_ntry = g(0);
             e.amt = g(1);
             e.entry_charge = v[2].map(|a| (a, true));
-            Rendered { config: camt_config(prec, "additional_entry_info", g(3)), statement: camt_doc(&ordered(e, CamtEntry::anchor(6), swap), Some("100"), Some("74.5")), ext: "xml", records: 3, expect: vec![], anchor_txn: Some(1 + a_idx), payees: None, dates: None }
+            Rendered { config: camt_config(prec, "additional_entry_info", g(3)), statement: camt_doc(&ordered(e, CamtEntry::anchor(6), swap), Some("100"), Some("74.5")), ext: "xml", records: 3, expect: vec![], anchor_txn: Some(1 + a_idx), payees: None, dates: vec![(1 + t_idx, ymd(2024, 1, 5), Some(ymd(2024, 1, 4))), (1 + a_idx, ymd(2024, 1, 6), None)], single_commodity: None, converted: None }
         }
         Kind::CamtNum => {
             let mut e = CamtEntry::plain();
@@ -645,7 +766,7 @@ fn render(shape: &Shape, prec: Option<u8>, v: &Vals, swap: bool) -> Rendered {
                     expect.extend(secondary_expect(records - 2 + t_idx, "EUR", tx, debit, if debit { "the entry debits the account" } else { "the entry credits the account" }));
                 }
             }
-            Rendered { config: camt_config(prec, "creditor_name", g(9)), statement: camt_doc(&ordered(e, CamtEntry::anchor(0), swap), v[7], v[8]), ext: "xml", records, expect, anchor_txn: Some(records - 2 + a_idx), payees: None, dates: None }
+            Rendered { config: camt_config(prec, "creditor_name", g(9)), statement: camt_doc(&ordered(e, CamtEntry::anchor(0), swap), v[7], v[8]), ext: "xml", records, expect, anchor_txn: Some(records - 2 + a_idx), payees: None, dates: vec![(records - 2 + t_idx, ymd(2024, 1, 5), Some(ymd(2024, 1, 4))), (records - 2 + a_idx, ymd(2024, 1, 6), None)], single_commodity: None, converted: None }
         }
         Kind::VisecaBasic => {
             let mut t = format!("04.01.24 05.01.24 {} {}{}\n", g(0), g(2), g(3));
@@ -654,7 +775,7 @@ fn render(shape: &Shape, prec: Option<u8>, v: &Vals, swap: bool) -> Rendered {
                 t.push('\n');
             }
             let st = assemble("", &t, VISECA_ANCHOR, swap, "", "");
-            Rendered { config: viseca_config(prec, "Okane Card (fee)"), statement: st, ext: "txt", records: 2, expect: vec![], anchor_txn: Some(a_idx), payees: None, dates: None }
+            Rendered { config: viseca_config(prec, "Okane Card (fee)"), statement: st, ext: "txt", records: 2, expect: vec![], anchor_txn: Some(a_idx), payees: None, dates: vec![(t_idx, ymd(2024, 1, 4), Some(ymd(2024, 1, 5))), (a_idx, ymd(2024, 1, 10), Some(ymd(2024, 1, 11)))], single_commodity: None, converted: None }
         }
         Kind::VisecaFx => {
             let mut t = format!("04.01.24 05.01.24 {} {} {} {}{}\nService stations\n", g(0), g(1), g(2), g(3), g(8));
@@ -671,7 +792,7 @@ fn render(shape: &Shape, prec: Option<u8>, v: &Vals, swap: bool) -> Rendered {
                 let purchase = g(8).is_empty();
                 expect.extend(secondary_expect(t_idx, "EUR", g(2), purchase, if purchase { "purchase line" } else { "refund line" }));
             }
-            Rendered { config: viseca_config(prec, g(9)), statement: st, ext: "txt", records: 2, expect, anchor_txn: Some(a_idx), payees: None, dates: None }
+            Rendered { config: viseca_config(prec, g(9)), statement: st, ext: "txt", records: 2, expect, anchor_txn: Some(a_idx), payees: None, dates: vec![(t_idx, ymd(2024, 1, 4), Some(ymd(2024, 1, 5))), (a_idx, ymd(2024, 1, 10), Some(ymd(2024, 1, 11)))], single_commodity: None, converted: None }
         }
     }
 }
@@ -729,6 +850,8 @@ struct CamtEntry<'a> {
     /// write the value / booking date as `<DtTm>` (the strings above are then RFC 3339 date-times)
     day_dttm: bool,
     booked_dttm: bool,
+    /// leave `ValDt` out (the booking date is then the only date of the record)
+    no_valdt: bool,
     /// when non-empty: a batch entry with one `TxDtls` per element (reference, amount, debit) instead of the single one
     batch: &'a [(String, String, bool)],
 }
@@ -755,6 +878,7 @@ impl<'a> CamtEntry<'a> {
             booked: "2024-01-04",
             day_dttm: false,
             booked_dttm: false,
+            no_valdt: false,
             batch: &[],
         }
     }
@@ -789,7 +913,11 @@ impl<'a> CamtEntry<'a> {
         s.push_str("<Ntry>\n");
         s.push_str(&format!("<Amt Ccy=\"{}\">{}</Amt><CdtDbtInd>{}</CdtDbtInd><Sts>BOOK</Sts>\n", xml_escape(self.ccy), xml_escape(self.amt), ind));
         let tag = |dttm: bool| if dttm { "DtTm" } else { "Dt" };
-        s.push_str(&format!("<BookgDt><{}>{}</{}></BookgDt><ValDt><{}>{}</{}></ValDt>\n", tag(self.booked_dttm), self.booked, tag(self.booked_dttm), tag(self.day_dttm), self.day, tag(self.day_dttm)));
+        s.push_str(&format!("<BookgDt><{}>{}</{}></BookgDt>", tag(self.booked_dttm), self.booked, tag(self.booked_dttm)));
+        if !self.no_valdt {
+            s.push_str(&format!("<ValDt><{}>{}</{}></ValDt>", tag(self.day_dttm), self.day, tag(self.day_dttm)));
+        }
+        s.push('\n');
         s.push_str("<BkTxCd><Domn><Cd>PMNT</Cd><Fmly><Cd>ICDT</Cd><SubFmlyCd>AUTT</SubFmlyCd></Fmly></Domn></BkTxCd>\n");
         s.push_str(&Self::charges_xml(self.entry_charge));
         if !self.batch.is_empty() {
@@ -960,7 +1088,7 @@ fn judge_uncached(env: &Env, si: usize, pi: usize, devs: &Devs) -> Judgement {
 }
 
 /// fields that belong to the configuration or to the statement as a whole (kept in the anchor reference)
-const STATEMENT_LEVEL_FIELDS: &[&str] = &["conversion", "operator", "opening-balance", "closing-balance"];
+const STATEMENT_LEVEL_FIELDS: &[&str] = &["conversion", "rule-conversion", "operator", "opening-balance", "closing-balance"];
 
 /// Runs the real command and the real library calls on one rendered (config, statement) pair and compares.
 fn judge_rendered(env: &Env, r: &Rendered, prec: Option<u8>, anchor_reference: Option<&(String, String)>) -> Judgement {
@@ -1024,10 +1152,53 @@ fn judge_rendered(env: &Env, r: &Rendered, prec: Option<u8>, anchor_reference: O
         return Judgement::Bad { clause: "record-count".into(), detail: show(format!("the statement holds {} records but the importer built {} transactions", r.records, trees.len())) };
     }
 
-    if let Some((i, date, edate)) = &r.dates {
+    for (i, date, edate) in &r.dates {
         let t = &trees[*i];
         if t.date != *date || t.effective_date != *edate {
             return Judgement::Bad { clause: "statement-date-differs".into(), detail: show(format!("transaction #{}: the record is dated {} (effective {:?}) but the importer built {} (effective {:?})", i + 1, date, edate, t.date, t.effective_date)) };
+        }
+    }
+    // ---- which conversion the configuration asks for (rule over account; `disabled` switches it off) ----
+    let posting_amount = |p: &plain::Posting| -> Option<(String, bool)> {
+        p.amount.as_ref().map(|a| {
+            (
+                match &a.amount {
+                    expr::ValueExpr::Amount(x) => x.commodity.to_string(),
+                    _ => "<expression>".to_string(),
+                },
+                a.cost.is_some(),
+            )
+        })
+    };
+    if let Some((i, commodity)) = &r.single_commodity {
+        let t = &trees[*i];
+        for (k, p) in t.posts.iter().enumerate() {
+            if let Some((c, cost)) = posting_amount(p) {
+                if c != *commodity || cost {
+                    return Judgement::Bad {
+                        clause: "conversion-disabled-but-converted".into(),
+                        detail: show(format!(
+                            "transaction #{}: the configuration switches the conversion of this record off, so all its amounts are in {} without a rate, but posting {} ({}) is in {}{}\n--- tree built by the importer ---\n{:#?}",
+                            i + 1,
+                            commodity,
+                            k + 1,
+                            p.account,
+                            c,
+                            if cost { " with a rate" } else { "" },
+                            t
+                        )),
+                    };
+                }
+            }
+        }
+    }
+    if let Some((i, commodity)) = &r.converted {
+        let t = &trees[*i];
+        if !t.posts.iter().any(|p| posting_amount(p).map(|(c, _)| c == *commodity).unwrap_or(false)) {
+            return Judgement::Bad {
+                clause: "conversion-configured-but-not-converted".into(),
+                detail: show(format!("transaction #{}: the configuration converts this record (rate, secondary amount and secondary commodity are given), but no posting is in {}\n--- tree built by the importer ---\n{:#?}", i + 1, commodity, t)),
+            };
         }
     }
     if let Some(want) = &r.payees {
@@ -1417,7 +1588,7 @@ fn layout_render(c: &LayoutCase) -> Rendered {
             let mut st = csv_row(&["date", "payee", "amount", "balance"], ',');
             st.push_str(&csv_row(&["2024-03-01", "City Power", c.amount, if c.balance { "100" } else { "" }], ','));
             st.push_str(&csv_row(&["2024-03-02", "Migros Grocery", "-20.5", ""], ','));
-            Rendered { config, statement: st, ext: "csv", records: 2, expect: vec![], anchor_txn: None, payees: None, dates: None }
+            Rendered { config, statement: st, ext: "csv", records: 2, expect: vec![], anchor_txn: None, payees: None, dates: vec![], single_commodity: None, converted: None }
         }
         "xml" => {
             let config = format!(
@@ -1433,7 +1604,7 @@ fn layout_render(c: &LayoutCase) -> Rendered {
             e.debit = c.flip;
             let closing = if c.balance { Some("74.5") } else { None };
             let records = 3;
-            Rendered { config, statement: camt_doc(&[e, CamtEntry::anchor(0)], Some("100"), closing), ext: "xml", records, expect: vec![], anchor_txn: None, payees: None, dates: None }
+            Rendered { config, statement: camt_doc(&[e, CamtEntry::anchor(0)], Some("100"), closing), ext: "xml", records, expect: vec![], anchor_txn: None, payees: None, dates: vec![], single_commodity: None, converted: None }
         }
         _ => {
             let config = format!(
@@ -1444,7 +1615,7 @@ fn layout_render(c: &LayoutCase) -> Rendered {
                 pending
             );
             let st = format!("04.01.24 05.01.24 City Power {}{}\nUtilities\n10.01.24 11.01.24 Migros Grocery 20.50\nGrocery stores\n", c.amount, if c.flip { " -" } else { "" });
-            Rendered { config, statement: st, ext: "txt", records: 2, expect: vec![], anchor_txn: None, payees: None, dates: None }
+            Rendered { config, statement: st, ext: "txt", records: 2, expect: vec![], anchor_txn: None, payees: None, dates: vec![], single_commodity: None, converted: None }
         }
     }
 }
@@ -1619,7 +1790,7 @@ fn multi_stmt_render(c: &MultiStmtCase) -> Rendered {
         want.extend(payees[s].iter().cloned());
     }
     let stmts: Vec<(&[CamtEntry], Option<&str>, Option<&str>)> = (0..c.stmts).map(|s| (per_stmt[s].as_slice(), if c.opening { Some("100") } else { None }, Some(closings[s].as_str()))).collect();
-    Rendered { config: camt_config(prec, "creditor_name", "Okane Bank (fee)"), statement: camt_multi_doc(&stmts), ext: "xml", records: want.len(), expect: vec![], anchor_txn: None, payees: Some(want), dates: None }
+    Rendered { config: camt_config(prec, "creditor_name", "Okane Bank (fee)"), statement: camt_multi_doc(&stmts), ext: "xml", records: want.len(), expect: vec![], anchor_txn: None, payees: Some(want), dates: vec![], single_commodity: None, converted: None }
 }
 
 fn multi_stmt_describe(c: &MultiStmtCase) -> String {
@@ -1662,6 +1833,11 @@ struct DateCase {
     date: NaiveDate,
     /// effective date = date + offset days (0: none)
     offset: i64,
+    /// Camt053 only: how the entry is booked — "single-detail" (one TxDtls), "entry-only" (no NtryDtls: booked as a
+    /// whole), "batch" (two TxDtls: two transactions with the dates of the entry)
+    structure: &'static str,
+    /// Camt053 only: the entry has no `ValDt`; `date` is then its booking date, the only date of the record
+    no_value_date: bool,
 }
 
 fn date_cases() -> Vec<DateCase> {
@@ -1679,13 +1855,27 @@ fn date_cases() -> Vec<DateCase> {
     }
     let mut v = vec![];
     for d in &days {
-        v.push(DateCase { importer: "csv", date: *d, offset: 0 });
+        v.push(DateCase { importer: "csv", date: *d, offset: 0, structure: "single-detail", no_value_date: false });
     }
     for importer in ["xml", "txt"] {
         for d in &days {
             for offset in [0i64, 1, 3, 7] {
-                v.push(DateCase { importer, date: *d, offset });
+                v.push(DateCase { importer, date: *d, offset, structure: "single-detail", no_value_date: false });
             }
+        }
+    }
+    // appended (the indices of the cases above do not move): the other ways a Camt053 entry is booked, and entries
+    // without a value date
+    for structure in ["entry-only", "batch"] {
+        for d in &days {
+            for offset in [0i64, 1, 3, 7] {
+                v.push(DateCase { importer: "xml", date: *d, offset, structure, no_value_date: false });
+            }
+        }
+    }
+    for structure in ["single-detail", "entry-only", "batch"] {
+        for d in &days {
+            v.push(DateCase { importer: "xml", date: *d, offset: 0, structure, no_value_date: true });
         }
     }
     v
@@ -1700,25 +1890,37 @@ fn date_render(c: &DateCase) -> Rendered {
             let mut st = csv_row(&["date", "payee", "amount"], ',');
             st.push_str(&csv_row(&[&c.date.format("%Y-%m-%d").to_string(), "Coffee Shop", "-5"], ','));
             st.push_str(&csv_row(&["2024-03-02", "Migros Grocery", "-20.5"], ','));
-            Rendered { config, statement: st, ext: "csv", records: 2, expect: vec![], anchor_txn: None, payees: None, dates: Some((0, c.date, None)) }
+            Rendered { config, statement: st, ext: "csv", records: 2, expect: vec![], anchor_txn: None, payees: None, dates: vec![(0, c.date, None)], single_commodity: None, converted: None }
         }
         "xml" => {
             let (day, booked) = (c.date.format("%Y-%m-%d").to_string(), later.format("%Y-%m-%d").to_string());
+            let batch: Vec<(String, String, bool)> = vec![("20240301/1/1".to_string(), "2".to_string(), true), ("20240301/1/2".to_string(), "3".to_string(), true)];
             let mut e = CamtEntry::plain();
             e.day = &day;
             e.booked = &booked;
-            Rendered { config: camt_config(None, "creditor_name", "Okane Bank (fee)"), statement: camt_doc(&[e, CamtEntry::anchor(0)], Some("100"), Some("74.5")), ext: "xml", records: 3, expect: vec![], anchor_txn: None, payees: None, dates: Some((1, c.date, edate)) }
+            e.no_valdt = c.no_value_date;
+            let mut dates = vec![(1, c.date, edate)];
+            match c.structure {
+                "entry-only" => e.txdtls = false,
+                "batch" => {
+                    e.batch = &batch;
+                    dates.push((2, c.date, edate));
+                }
+                _ => {}
+            }
+            let records = 2 + dates.len();
+            Rendered { config: camt_config(None, "creditor_name", "Okane Bank (fee)"), statement: camt_doc(&[e, CamtEntry::anchor(0)], Some("100"), Some("74.5")), ext: "xml", records, expect: vec![], anchor_txn: None, payees: None, dates, single_commodity: None, converted: None }
         }
         _ => {
             let st = format!("{} {} Coffee Shop 5.00\nRestaurants\n{}", c.date.format("%d.%m.%y"), later.format("%d.%m.%y"), VISECA_ANCHOR);
-            Rendered { config: viseca_config(None, "Okane Card (fee)"), statement: st, ext: "txt", records: 2, expect: vec![], anchor_txn: None, payees: None, dates: Some((0, c.date, edate)) }
+            Rendered { config: viseca_config(None, "Okane Card (fee)"), statement: st, ext: "txt", records: 2, expect: vec![], anchor_txn: None, payees: None, dates: vec![(0, c.date, edate)], single_commodity: None, converted: None }
         }
     }
 }
 
 fn date_describe(c: &DateCase) -> String {
     let r = date_render(c);
-    format!("date family: importer {} record date {} ({:?}), effective date {} days later\n--- config ---\n{}--- statement (.{}) ---\n{}", c.importer, c.date, c.date.weekday(), c.offset, r.config, r.ext, r.statement)
+    format!("date family: importer {} record date {} ({:?}), effective date {} days later{}{}\n--- config ---\n{}--- statement (.{}) ---\n{}", c.importer, c.date, c.date.weekday(), c.offset, if c.importer == "xml" { format!(", entry booked as {}", c.structure) } else { String::new() }, if c.no_value_date { ", no ValDt (the date is the booking date)" } else { "" }, r.config, r.ext, r.statement)
 }
 
 fn date_outcome(env: &Env, c: &DateCase) -> Outcome {
@@ -1738,10 +1940,12 @@ fn date_outcome(env: &Env, c: &DateCase) -> Outcome {
     } else {
         "ordinary"
     };
+    // how the Camt053 entry is booked (nothing for the original single-detail entries with a value date)
+    let booked_as = format!("{}{}", if c.structure == "single-detail" { String::new() } else { format!("+{}", c.structure) }, if c.no_value_date { "+no-value-date" } else { "" });
     match j {
         Judgement::Rejected(cl) => Outcome::dont_care(format!("dates/{}", cl)),
-        Judgement::Ok { .. } => Outcome::pass(format!("dates/roundtrip-ok/{}/{}{}", c.importer, kind, if c.offset != 0 { "/edate" } else { "" })),
-        Judgement::Bad { clause, detail } => Outcome::violation(format!("{}/date:{}", clause, kind), detail),
+        Judgement::Ok { .. } => Outcome::pass(format!("dates/roundtrip-ok/{}/{}{}{}", c.importer, kind, if c.offset != 0 { "/edate" } else { "" }, booked_as.replace('+', "/"))),
+        Judgement::Bad { clause, detail } => Outcome::violation(format!("{}/date:{}{}", clause, kind, booked_as), detail),
     }
 }
 
@@ -1757,8 +1961,9 @@ fn date_outcome(env: &Env, c: &DateCase) -> Outcome {
 
 #[derive(Clone, Debug)]
 enum CamtRefCase {
-    /// (offset in minutes, local time "HH:MM", which: 0 booking DtTm, 1 value DtTm, 2 both)
-    DtTm(i32, &'static str, u8),
+    /// (offset in minutes, local time "HH:MM", which: 0 booking DtTm, 1 value DtTm, 2 both, entry booked as a whole
+    /// i.e. without NtryDtls)
+    DtTm(i32, &'static str, u8, bool),
     /// (entry is debit, indicator (debit) of each detail, precision index)
     Batch(bool, Vec<bool>, usize),
 }
@@ -1767,10 +1972,10 @@ fn camt_ref_cases() -> Vec<CamtRefCase> {
     let mut v = vec![];
     let mut offsets: Vec<i32> = (-12..=14).map(|h| h * 60).collect();
     offsets.extend([330, 345, -210]);
-    for off in offsets {
+    for off in &offsets {
         for time in ["00:00", "00:30", "12:00", "23:30"] {
             for which in 0..3u8 {
-                v.push(CamtRefCase::DtTm(off, time, which));
+                v.push(CamtRefCase::DtTm(*off, time, which, false));
             }
         }
     }
@@ -1784,12 +1989,20 @@ fn camt_ref_cases() -> Vec<CamtRefCase> {
             }
         }
     }
+    // appended: the same date-times on an entry booked as a whole (no NtryDtls)
+    for off in &offsets {
+        for time in ["00:00", "00:30", "12:00", "23:30"] {
+            for which in 0..3u8 {
+                v.push(CamtRefCase::DtTm(*off, time, which, true));
+            }
+        }
+    }
     v
 }
 
 fn camt_ref_render(c: &CamtRefCase) -> Rendered {
     match c {
-        CamtRefCase::DtTm(off, time, which) => {
+        CamtRefCase::DtTm(off, time, which, entry_only) => {
             let sign = if *off < 0 { '-' } else { '+' };
             let o = format!("{}{:02}:{:02}", sign, off.abs() / 60, off.abs() % 60);
             let value_local = NaiveDate::from_ymd_opt(2024, 3, 1).unwrap();
@@ -1801,8 +2014,9 @@ fn camt_ref_render(c: &CamtRefCase) -> Rendered {
             e.booked = &booked;
             e.day_dttm = *which >= 1;
             e.booked_dttm = *which != 1;
+            e.txdtls = !*entry_only;
             let edate = if booked_local != value_local { Some(booked_local) } else { None };
-            Rendered { config: camt_config(None, "creditor_name", "Okane Bank (fee)"), statement: camt_doc(&[e, CamtEntry::anchor(0)], Some("100"), Some("74.5")), ext: "xml", records: 3, expect: vec![], anchor_txn: None, payees: None, dates: Some((1, value_local, edate)) }
+            Rendered { config: camt_config(None, "creditor_name", "Okane Bank (fee)"), statement: camt_doc(&[e, CamtEntry::anchor(0)], Some("100"), Some("74.5")), ext: "xml", records: 3, expect: vec![], anchor_txn: None, payees: None, dates: vec![(1, value_local, edate)], single_commodity: None, converted: None }
         }
         CamtRefCase::Batch(entry_debit, inds, pi) => {
             let amounts = ["10.00", "30.00", "5.5"];
@@ -1823,7 +2037,7 @@ fn camt_ref_render(c: &CamtRefCase) -> Rendered {
             e.debit = *entry_debit;
             e.batch = &batch;
             let records = 2 + batch.len();
-            Rendered { config: camt_config(PRECS[*pi], "creditor_name", "Okane Bank (fee)"), statement: camt_doc(&[e, CamtEntry::anchor(0)], Some("100"), Some("74.5")), ext: "xml", records, expect, anchor_txn: None, payees: None, dates: None }
+            Rendered { config: camt_config(PRECS[*pi], "creditor_name", "Okane Bank (fee)"), statement: camt_doc(&[e, CamtEntry::anchor(0)], Some("100"), Some("74.5")), ext: "xml", records, expect, anchor_txn: None, payees: None, dates: vec![], single_commodity: None, converted: None }
         }
     }
 }
@@ -1845,7 +2059,7 @@ fn camt_ref_outcome(env: &Env, c: &CamtRefCase) -> Outcome {
         Err(sig) => Judgement::Bad { clause: format!("crash/{}", sig), detail: "panic while importing this statement".into() },
     };
     let (family, kind) = match c {
-        CamtRefCase::DtTm(off, _, which) => ("camt-dttm", format!("{}/{}", ["booking", "value", "both"][*which as usize], if *off == 0 { "utc" } else if *off < 0 { "west" } else { "east" })),
+        CamtRefCase::DtTm(off, _, which, entry_only) => ("camt-dttm", format!("{}/{}{}", ["booking", "value", "both"][*which as usize], if *off == 0 { "utc" } else if *off < 0 { "west" } else { "east" }, if *entry_only { "/entry-only" } else { "" })),
         CamtRefCase::Batch(e, inds, _) => ("camt-batch", if inds.iter().all(|d| d == e) { "same-indicator".to_string() } else if inds.iter().all(|d| d != e) { "opposite-indicator".to_string() } else { "mixed-indicators".to_string() }),
     };
     match j {
@@ -1853,6 +2067,68 @@ fn camt_ref_outcome(env: &Env, c: &CamtRefCase) -> Outcome {
         Judgement::Ok { .. } => Outcome::pass(format!("{}/roundtrip-ok/{}", family, kind)),
         Judgement::Bad { clause, detail } => Outcome::violation(format!("{}/{}:{}", clause, family, kind.replace('/', "-")), detail),
     }
+}
+
+// ------------------------------------------------------------------------------------------------
+// Conversion-configuration product (csv-multi): which conversion applies to a row is decided by the rewrite rule that
+// matches it, by the account-wide `commodity.conversion`, by `disabled` on either, and by which of the rate /
+// secondary amount / secondary commodity cells the row fills. The record cases only reach <= d of these at a time;
+// this family takes EVERY combination of
+//   account-wide conversion (7: four modes, disabled, disabled with other modes, key left out)
+//   x rule conversion (8: none, four modes, disabled, disabled with other modes, commodity override)
+//   x rate cell {filled, empty} x secondary amount cell {filled, empty} x secondary commodity cell {filled, empty}
+//   x charge {none, present} x amount sign {credit, debit} x precision {none, 2}
+// as a csv-multi record (same rendering, same reference, same minimisation as the record cases).
+
+fn conversion_product(shape: &Shape) -> Vec<(usize, Devs)> {
+    let field = |name: &str| shape.fields.iter().position(|f| f.name == name).unwrap_or_else(|| panic!("harness bug: csv-multi has no field {}", name));
+    let alt_of = |f: usize, label: &str| shape.fields[f].alts.iter().position(|a| a.label == label).unwrap_or_else(|| panic!("harness bug: field {} has no alternative {}", shape.fields[f].name, label));
+    let all = |f: usize| (0..shape.fields[f].alts.len()).collect::<Vec<usize>>();
+    let mut dims: Vec<(usize, Vec<usize>)> = vec![
+        (field("conversion"), all(field("conversion"))),
+        (field("rule-conversion"), all(field("rule-conversion"))),
+        (field("rate"), vec![0, alt_of(field("rate"), "absent")]),
+        (field("secondary_amount"), vec![0, alt_of(field("secondary_amount"), "absent")]),
+        (field("secondary_commodity"), vec![0, alt_of(field("secondary_commodity"), "empty")]),
+        (field("charge"), vec![0, alt_of(field("charge"), "present")]),
+        (field("amount"), vec![0, alt_of(field("amount"), "negative")]),
+    ];
+    // deviations are kept sorted by field index
+    dims.sort_by_key(|(f, _)| *f);
+    let total: usize = dims.iter().map(|(_, a)| a.len()).product();
+    let mut v = vec![];
+    for code in 0..total {
+        let mut x = code;
+        let mut devs: Devs = vec![];
+        for (f, alts) in &dims {
+            let a = alts[x % alts.len()];
+            x /= alts.len();
+            if a != 0 {
+                devs.push((*f as u8, a as u8));
+            }
+        }
+        for pi in 0..2 {
+            v.push((pi, devs.clone()));
+        }
+    }
+    v
+}
+
+fn conversion_outcome(env: &Env, si: usize, pi: usize, devs: &Devs) -> Outcome {
+    let shape = &env.shapes[si];
+    let r = render(shape, opt_prec(pi), &values(shape, devs), opt_swap(pi));
+    let kind = if r.single_commodity.is_some() {
+        "switched-off"
+    } else if r.converted.is_some() {
+        "converted"
+    } else {
+        "not-judged"
+    };
+    let mut o = outcome(env, si, pi, devs);
+    if !matches!(o.verdict, crate::fw::Verdict::Violation { .. }) {
+        o.class = format!("conversion-product/{}/{}", kind, o.class);
+    }
+    o
 }
 
 fn run(ctx: &mut Ctx) {
@@ -1944,6 +2220,9 @@ fn run(ctx: &mut Ctx) {
         }
         let (r0, c0) = (*env.runs.borrow(), *env.compared.borrow());
         ctx.case(|| date_describe(c), || date_outcome(&env, c));
+        if c.importer == "xml" {
+            ctx.count(&format!("date_cases_camt/{}{}", c.structure, if c.no_value_date { "/no-value-date" } else { "" }), 1);
+        }
         let (r1, c1) = (*env.runs.borrow(), *env.compared.borrow());
         ctx.count("states", r1 - r0);
         ctx.count("transitions", c1 - c0);
@@ -1958,6 +2237,35 @@ fn run(ctx: &mut Ctx) {
         }
         let (r0, c0) = (*env.runs.borrow(), *env.compared.borrow());
         ctx.case(|| camt_ref_describe(c), || camt_ref_outcome(&env, c));
+        let (r1, c1) = (*env.runs.borrow(), *env.compared.borrow());
+        ctx.count("states", r1 - r0);
+        ctx.count("transitions", c1 - c0);
+    }
+    // ---- conversion-configuration product (csv-multi) ----
+    let multi_si = env.shapes.iter().position(|s| s.kind == Kind::CsvMulti).expect("harness bug: no csv-multi shape");
+    let conv = conversion_product(&env.shapes[multi_si]);
+    ctx.fact("conversion_product_cases", conv.len() as u64);
+    for (pi, devs) in &conv {
+        if !ctx.next_is_mine() {
+            ctx.skip_cases(1);
+            continue;
+        }
+        let (r0, c0) = (*env.runs.borrow(), *env.compared.borrow());
+        let seen: RefCell<Option<String>> = RefCell::new(None);
+        ctx.case(
+            || format!("conversion-configuration product: {}", describe(&env.shapes[multi_si], *pi, devs)),
+            || {
+                let o = conversion_outcome(&env, multi_si, *pi, devs);
+                // evidence of non-vacuity: expectation kind x what okane did
+                let mut parts = o.class.split('/');
+                let (a, b, c) = (parts.next().unwrap_or(""), parts.next().unwrap_or(""), parts.next().unwrap_or(""));
+                *seen.borrow_mut() = Some(if a == "conversion-product" { format!("conversion_product/{}/{}", b, c) } else { "conversion_product/violation".to_string() });
+                o
+            },
+        );
+        if let Some(k) = seen.into_inner() {
+            ctx.count(&k, 1);
+        }
         let (r1, c1) = (*env.runs.borrow(), *env.compared.borrow());
         ctx.count("states", r1 - r0);
         ctx.count("transitions", c1 - c0);
